@@ -26,7 +26,7 @@ CLAIMED.update({
  "C19": dict(
    text="Structural clauses of page migration on all paths: back-pressure discipline and the retry-list idiom on every PMC send stage, field/ID threading of the chunk pipeline (cursor steps = transfer unit, chunk count = page size / unit), completion built once at counter 0, one migration at a time, the driver's drain-shootdown-migrate-restart stage order (each stage only at its predecessor's counter 0), request fields old PAddr -> newly allocated page. Byte equality of page contents is not decided.",
    ref="4/C19", technique="SSA path analysis (SEND-DISCIPLINE, retry-list rule, must-pass), dominance cuts on counter==0 (GUARD), value provenance (FIELDS)",
-   note="page contents and page-size divisibility not decided; 13 unchecked Sends of the CP control middleware recorded as known findings"),
+   note="page contents and page-size divisibility not decided; acknowledgement counters are raised exactly where their requests are queued; 13 unchecked Sends of the CP control middleware recorded as known findings"),
 })
 
 CLAIMED.update({
@@ -42,9 +42,9 @@ CLAIMED.update({
    ref="4/C09", technique="SIBLINGS over implementations of one interface, SSA path analysis (SEND-DISCIPLINE, must-pass), dominance cuts with phi-fact pruning (GUARD), value provenance, constant tables",
    note="resourceMask internals, gridbuilder and the CU-side completion (C14) not covered here; one defect (LDS demand ignored dynamic local memory) found and repaired by a fix: commit"),
  "C11": dict(
-   text="Structural clauses of host-device copies: the range-overlap predicate decided on all 75 weak orderings of its arguments (order-domain abstract interpretation of its comparison skeleton), completion only on an empty outstanding list / finished request collection, six splitting loops (chunk = min(remaining, address-dependent unit remainder), one step for all cursors, slice and size = chunk), piece addressing via the page found for the address, SEND-DISCIPLINE of DMA/CP/driver send stages, clone FIELDS, flush-before-copy ordering and CP gates, dirty marks, and a copy command enters the running state only for a non-zero size. Byte equality for all offsets/lengths is not decided.",
+   text="Structural clauses of host-device copies: the range-overlap predicate decided on all 75 weak orderings of its arguments (order-domain abstract interpretation of its comparison skeleton), completion only on an empty outstanding list / finished request collection, six splitting loops (chunk = min(remaining, address-dependent unit remainder), one step for all cursors, slice and size = chunk), piece addressing via the page found for the address, SEND-DISCIPLINE of DMA/CP/driver send stages, clone FIELDS, flush-before-copy ordering and CP gates, dirty marks, a copy command enters the running state only for a non-zero size, and every response handler that removes a request from a command can retire it. Byte equality for all offsets/lengths is not decided.",
    ref="4/C11", technique="order-domain abstract interpretation (ORDER-DOMAIN), SSA loop-shape analysis of splitting loops, SSA path analysis (SEND-DISCIPLINE, must-pass), dominance cuts (GUARD), value provenance (FIELDS)",
-   note="arithmetic over runtime values and cache flush effectiveness not decided; 3 unchecked Sends of the CP middleware recorded as known findings; two defects (memRangeOverlap containment, zero-length copies never completing) repaired by fix: commits"),
+   note="arithmetic over runtime values and cache flush effectiveness not decided; 3 unchecked Sends of the CP middleware recorded as known findings; three defects (memRangeOverlap containment, zero-length copies never completing, copies never completing when a flush of another GPU returned last - the cause of the repository's hanging mccl suite) repaired by fix: commits"),
 })
 
 CLAIMED.update({
